@@ -124,6 +124,29 @@ for pid in sorted(props):
                                          str(m.get("trigger", "")).replace("|", "/")[:300],
                                          sr.get("result", "not yet run").replace("|", "/")))
 out.append("")
+p2 = os.path.join(V, "seeded2", "results.json")
+if os.path.exists(p2):
+    r2 = json.load(open(p2))
+    out.append("### 6.3 Second round of seeded changes\n")
+    out.append("A second set of fresh sub-agents got the same brief plus the one-sentence summary of the first round's "
+               "change for their property, and had to choose a different mechanism, function and kind of trigger, "
+               "preferring rarely exercised paths. Kept in `seeded2/<id>/`. These were run **out of tree** with "
+               "`tools/seedtest2.sh` (the machinery is built from the patched scratch worktree via `H4_SRC`, into a "
+               "private build directory; `/repo` is not touched).\n")
+    out.append("| property | seeded change | trigger | result |\n|---|---|---|---|")
+    for pid in sorted(props):
+        mp = os.path.join(V, "seeded2", pid, "meta.json")
+        if not os.path.exists(mp):
+            continue
+        try:
+            m = json.load(open(mp))
+        except Exception:
+            continue
+        sr = r2.get(pid, {})
+        out.append("| %s | %s | %s | %s |" % (pid, str(m.get("summary", "")).replace("|", "/")[:400],
+                                             str(m.get("trigger", "")).replace("|", "/")[:300],
+                                             sr.get("result", "not yet run").replace("|", "/")))
+    out.append("")
 out.append(open(os.path.join(V, "tools", "design_tail.md")).read())
 open(os.path.join(V, "DESIGN.md"), "w").write("\n".join(out))
 print("DESIGN.md written: %d lines" % len("\n".join(out).split("\n")))
